@@ -471,7 +471,8 @@ def execute(case, scratch):
             try:
                 return fn()
             except Exception as e:
-                return {'__raised__': '%s: %s' % (type(e).__name__, str(e)[:260])}
+                msg = str(e).replace(os.path.realpath(world), '<ROOT>').replace(world, '<ROOT>')
+                return {'__raised__': '%s: %s' % (type(e).__name__, msg[:260])}
         r = proc.run_func(world, guarded, plan_, ctl_parent=ctlp)
         count['evaluations'] += 1
         fired = sum(1 for e in r.events if e.get('k') == 'evalfault')
